@@ -921,7 +921,7 @@ fn walk_mark(lk: &Lk, m: u16, b: u16) -> Option<(Anc, Anc)> {
 
 enum Pre {
     PP1 { cov: Flat, fps: Vec<i64> },
-    PP2 { cov: Flat, cd1: Flat, rowfp: Vec<i64> },
+    PP2 { cov: Flat, cd1: Flat, rowfp: Vec<i64>, c2n: usize },
     M2B { mcov: Flat, ncls: usize, marks: Vec<(i64, i64)>, rows: Vec<Vec<i64>> },
 }
 const SAMPLE_BASES: usize = 3;
@@ -952,7 +952,8 @@ fn pre_of_lookup(l: &wgpos::PositionLookup) -> (u16, u16, Option<u16>, Vec<Pre>)
                                 hash30(&row.iter().map(eff2).collect::<Vec<_>>())
                             })
                             .collect();
-                        v.push(Pre::PP2 { cov: flat_of_wcov(&t.coverage), cd1: flat_of_wcd(&t.class_def1), rowfp });
+                        let c2n = t.class1_records.first().map(|r| r.class2_records.len()).unwrap_or(0);
+                        v.push(Pre::PP2 { cov: flat_of_wcov(&t.coverage), cd1: flat_of_wcd(&t.class_def1), rowfp, c2n });
                     }
                 }
             }
@@ -1020,7 +1021,7 @@ fn emit_split_cases(pre: &[Pre], lk: &Lk, st: &mut Stats, cw: &mut Vec<String>, 
                     }
                 }
             }
-            Pre::PP2 { cov, cd1, rowfp } => {
+            Pre::PP2 { cov, cd1, rowfp, .. } => {
                 let mut pieces = vec![];
                 let mut sps = vec![];
                 let mut acc = 0usize;
@@ -1283,6 +1284,55 @@ fn gen_pair_class_spec_k(rng: &mut Rng, target_bytes: usize, pool: &[Dev], with_
     Spec::Pair { pairs, classes }
 }
 
+/// a short SEQUENCE of insert_classes / insert_pair calls over a small glyph universe: class sets that are equal to,
+/// nested in, overlapping with or disjoint from earlier ones on both sides (implicit subtable breaks in any position)
+fn gen_class_sequence_spec(rng: &mut Rng, pool: &[Dev]) -> Spec {
+    let u1: Vec<u16> = (10..10 + 6 + rng.below(8) as u16).collect();
+    let u2: Vec<u16> = (40..40 + 4 + rng.below(8) as u16).collect();
+    let gen_set = |rng: &mut Rng, u: &[u16], earlier: &[Vec<u16>]| -> Vec<u16> {
+        let fresh = |rng: &mut Rng| -> Vec<u16> {
+            let mut s: BTreeSet<u16> = BTreeSet::new();
+            for _ in 0..1 + rng.below(3) {
+                s.insert(*rng.pick(u));
+            }
+            s.into_iter().collect()
+        };
+        if earlier.is_empty() {
+            return fresh(rng);
+        }
+        let e = rng.pick(earlier).clone();
+        let mut s: BTreeSet<u16> = match rng.below(10) {
+            0..=2 => e.iter().copied().collect(),                       // equal
+            3 | 4 => e.iter().copied().chain([*rng.pick(u)]).collect(), // superset (or equal)
+            5 | 6 => [*rng.pick(&e)].into_iter().chain(if rng.chance(1, 2) { Some(*rng.pick(u)) } else { None }).collect(), // subset / overlap
+            _ => fresh(rng).into_iter().collect(),
+        };
+        if s.is_empty() {
+            s.insert(u[0]);
+        }
+        let mut v: Vec<u16> = s.into_iter().collect();
+        if rng.chance(1, 3) {
+            rng.shuffle(&mut v);
+        }
+        v
+    };
+    let n = 3 + rng.below(6) as usize;
+    let (k1, k2) = (*rng.pick(&[0u64, 0, 1, 3, 9]), *rng.pick(&[4u64, 4, 0, 5]));
+    let mut classes: Vec<(Vec<u16>, Vec<u16>, Val, Val)> = vec![];
+    for i in 0..n {
+        let e1: Vec<Vec<u16>> = classes.iter().map(|c| c.0.clone()).collect();
+        let e2: Vec<Vec<u16>> = classes.iter().map(|c| c.1.clone()).collect();
+        let c1 = gen_set(rng, &u1, &e1);
+        let c2 = gen_set(rng, &u2, &e2);
+        classes.push((c1, c2, mk_val(k1, (i * 37 + 1) as i64, pool), mk_val(k2, (i * 53 + 2) as i64, pool)));
+    }
+    let mut pairs = vec![];
+    for j in 0..rng.below(4) {
+        pairs.push((*rng.pick(&u1), *rng.pick(&u2), mk_val(k1, 900 + j as i64, pool), mk_val(k2, 950 + j as i64, pool)));
+    }
+    Spec::Pair { pairs, classes }
+}
+
 fn gen_direct_pp1(rng: &mut Rng, target_bytes: usize) -> Spec {
     let m = *rng.pick(&[(0b0100u8, 0u8), (0b1000, 0b1000), (0b0001, 0), (0b0010, 0b1000), (0b1111, 0b1111), (0b1100, 0b0100), (0b0100, 0)]);
     gen_direct_pp1_k(rng, target_bytes, m.0, m.1)
@@ -1430,6 +1480,29 @@ fn run_gpos_case(case: &GposCase, rng: &mut Rng, st: &mut Stats, cw: &mut CaseWr
             ));
             // split structure vs model
             emit_split_cases(pres, &lk, &mut lst, &mut lcw, &format!("{}:l{}", key, li));
+            // the subtable assignment the real builder chose for a sequence of insert_classes calls vs the model (cpp_build)
+            if let Spec::Pair { classes, .. } = &ls.spec {
+                let nglyphs: usize = classes.iter().map(|c| c.0.len() + c.1.len()).sum();
+                if !classes.is_empty() && classes.len() <= 40 && nglyphs <= 400 {
+                    let subs: Vec<String> = pres
+                        .iter()
+                        .filter_map(|p| match p {
+                            Pre::PP2 { cov, rowfp, c2n, .. } => {
+                                let glyphs: Vec<i64> = if cov.0 == 1 { cov.1.clone() } else { cov.1.chunks(3).flat_map(|r| r[0]..=r[1]).collect() };
+                                Some(format!("({}, {}, {})", czlist(glyphs.iter().map(|g| *g as i128)), rowfp.len(), c2n))
+                            }
+                            _ => None,
+                        })
+                        .collect();
+                    lcw.push(format!(
+                        "CClassSeq {} [{}]",
+                        clist(classes.iter(), |c| format!("({}, {})", czlist(c.0.iter().map(|g| *g as i128)), czlist(c.1.iter().map(|g| *g as i128)))),
+                        subs.join("; ")
+                    ));
+                    lst.count("class_sequence_shard_cases");
+                    lst.count(&format!("class_sequence_subtables_{}", subs.len().min(5)));
+                }
+            }
             // semantics: every pair with a rule, plus a sample without
             match &ls.spec {
                 Spec::Pair { pairs, classes } => {
@@ -1462,10 +1535,37 @@ fn run_gpos_case(case: &GposCase, rng: &mut Rng, st: &mut Stats, cw: &mut CaseWr
                         todo.push((a, b));
                     }
                     let mut bad = 0;
+                    let mut bad_order = 0;
+                    let order_check = !classes.is_empty() && classes.len() <= 64;
+                    let csets: Vec<(BTreeSet<u16>, BTreeSet<u16>)> = if order_check {
+                        classes.iter().map(|c| (c.0.iter().copied().collect(), c.1.iter().copied().collect())).collect()
+                    } else {
+                        vec![]
+                    };
                     for (a, b) in todo {
                         let exp = sem.eval(a, b);
                         let got = walk_pair(&lk, a, b);
                         lst.evaluations += 1;
+                        // insertion-order priority, independent of how rules are grouped into subtables: a pair that no specific
+                        // glyph-pair rule covers gets the value of the FIRST class rule (insertion order) covering it (the last
+                        // one given for the identical class pair), or nothing (an earlier subtable covers glyph 1 without a rule
+                        // for this pair) — never the value of a later, different rule
+                        if order_check && !sem.pair_map.contains_key(&(a, b)) {
+                            let g = got.as_ref().map(eff2).unwrap_or_default();
+                            let zero = <(([i16; 4], [Dev; 4]), ([i16; 4], [Dev; 4]))>::default();
+                            let ok = g == zero
+                                || match csets.iter().position(|c| c.0.contains(&a) && c.1.contains(&b)) {
+                                    Some(k) => csets.iter().enumerate().any(|(j, c)| *c == csets[k] && eff2(&(classes[j].2.clone(), classes[j].3.clone())) == g),
+                                    None => false,
+                                };
+                            if !ok {
+                                bad_order += 1;
+                                if bad_order <= 2 {
+                                    lst.oracle_failure(json!({"key": format!("{}:l{}:order", key, li), "what": "a glyph pair gets a value that is neither the first covering class rule's (insertion order) nor nothing",
+                                        "g1": a, "g2": b, "got": format!("{:?}", got)}));
+                                }
+                            }
+                        }
                         if exp.is_none() {
                             without += 1;
                         }
@@ -2041,6 +2141,12 @@ fn main() {
             _ => gen_direct_pp1(&mut rng, t),
         };
         cases.push(mk(format!("small-{}", i), vec![s], &mut rng));
+    }
+    // sequences of insert_classes / insert_pair calls: grouping of class rules into subtables is history dependent
+    let nseq = if thorough { 1500 } else { 250 };
+    for i in 0..nseq {
+        let s = gen_class_sequence_spec(&mut rng, &pool);
+        cases.push(mk(format!("class-seq-{}", i), vec![s], &mut rng));
     }
     // every ValueRecord field set, in glyph-pair rules, class-pair rules (first and second record) and direct tables
     for (n, k) in ALL_KINDS.iter().enumerate() {
